@@ -379,7 +379,7 @@ func c05R2(p *core.Program, r *core.Report, pl *pipeline) {
 	}
 	r.Check(okNT, rule, nt, "a new import tracker starts with two empty maps of its own", token.NoPos, "&defaultImportTracker{pathToName: map{}, nameToPath: map{}}", "NewDefaultImportTracker does not return a struct with two newly allocated empty maps: import names chosen for one file leak into the next")
 	// InitWith binds the namer on this file
-	iw := p.FuncByName("pkg/gengo", "(*genfile).InitWith")
+	iw := fileMethod(p, "InitWith")
 	if iw != nil {
 		called := false
 		for _, c := range core.Calls(loop.Body, true) {
